@@ -36,7 +36,7 @@ package unary
 //@   ensures  i.bounds == old(i.bounds)
 //@   ensures  i.closed ==> i.view == old(i.view)
 //@   # forward step: the new view starts where the old one ended and is clipped to the bounds
-//@   ensures  !i.closed && old(i.view.End) != old(i.bounds.End) ==> i.view.Start == old(i.view.End) && i.view.End == min(clamp.AddInt64(int64(old(i.view.End)), int64(span)), int64(i.bounds.End))
+//@   ensures  !i.closed && old(i.view.End) != old(i.bounds.End) ==> i.view.Start == old(i.view.End) && int64(i.view.End) == min(clamp.AddInt64(int64(old(i.view.End)), int64(span)), int64(i.bounds.End))
 //@   # at the end of the bounds the view is the empty point at bounds.End
 //@   ensures  !i.closed && old(i.view.End) == old(i.bounds.End) ==> i.view.Start == i.bounds.End && i.view.End == i.bounds.End
 //@   ensures  !i.closed ==> wfIter(i)
@@ -48,7 +48,7 @@ package unary
 //@   ensures  i.bounds == old(i.bounds)
 //@   ensures  i.closed ==> i.view == old(i.view)
 //@   # backward step: the new view ends where the old one started and is clipped to the bounds
-//@   ensures  !i.closed && old(i.view.Start) != old(i.bounds.Start) ==> i.view.End == old(i.view.Start) && i.view.Start == max(int64(old(i.view.Start)) - int64(span), int64(i.bounds.Start))
+//@   ensures  !i.closed && old(i.view.Start) != old(i.bounds.Start) ==> i.view.End == old(i.view.Start) && int64(i.view.Start) == max(int64(old(i.view.Start)) - int64(span), int64(i.bounds.Start))
 //@   ensures  !i.closed && old(i.view.Start) == old(i.bounds.Start) ==> i.view.Start == i.bounds.Start && i.view.End == i.bounds.Start
 //@   ensures  !i.closed ==> wfIter(i)
 //@   modifies i, i.internal
